@@ -10,6 +10,7 @@ import (
 
 	"golibcheck/internal/bits"
 	"golibcheck/internal/core"
+	"golibcheck/internal/paths"
 	"golibcheck/internal/wire"
 )
 
@@ -220,16 +221,23 @@ func c01Pack(p *core.Program, r *core.Report, ip *bits.Interp) {
 			r.Undec("C01.pack", "io."+name, "-", "not found")
 			continue
 		}
-		var lits []string
-		ast.Inspect(fi.Decl.Body, func(n ast.Node) bool {
-			if cl, ok := n.(*ast.CompositeLit); ok && len(cl.Elts) == 1 {
-				if tv, ok := fi.Pkg.TypesInfo.Types[cl.Elts[0]]; ok && tv.Value != nil {
-					lits = append(lits, tv.Value.ExactString())
-				}
+		// evaluated for both inputs (closed code: a literal per branch, a table, a conditional store)
+		ce := &constEvaluator{p: p}
+		got := map[int64]string{}
+		for _, b := range []int64{1, 0} {
+			v, ok := ce.run(fi.Pkg.TypesInfo, fi.Decl.Type, fi.Decl.Body, []*cval{{k: 'i', n: b}}, nil)
+			switch {
+			case !ok || v == nil || v.k != 'a':
+				got[b] = "?"
+			default:
+				got[b] = fmt.Sprint(v.arr)
 			}
-			return true
-		})
-		r.Check(len(lits) == 2 && lits[0] == "1" && lits[1] == "0", "C01.pack", "io."+name, p.Pos(fi.Decl.Pos()), "true -> [1], false -> [0]", "bool is not encoded as one byte 1/0: "+strings.Join(lits, ","))
+		}
+		if got[1] == "?" || got[0] == "?" {
+			r.Undec("C01.pack", "io."+name, p.Pos(fi.Decl.Pos()), "body outside the closed-code fragment")
+			continue
+		}
+		r.Check(got[1] == "[1]" && got[0] == "[0]", "C01.pack", "io."+name, p.Pos(fi.Decl.Pos()), "true -> [1], false -> [0]", "bool is not encoded as one byte 1/0: true -> "+got[1]+", false -> "+got[0])
 	}
 }
 
@@ -576,36 +584,197 @@ func c01Counter(p *core.Program, r *core.Report) {
 		r.Undec("C01.counter", "io.DataOutputX", "-", "type not found")
 		return
 	}
-	// the two fields the rule is about, by role: the buffer is the field of type bytes.Buffer, the
-	// counter is the integer field Size() returns
-	bufField, cntField := "buffer", "written"
-	if st, ok := outT.Underlying().(*types.Struct); ok {
-		for i := 0; i < st.NumFields(); i++ {
-			if strings.HasSuffix(strings.TrimPrefix(st.Field(i).Type().String(), "*"), "bytes.Buffer") {
-				bufField = st.Field(i).Name()
+	// the owner of the byte store: DataOutputX itself, or an unexported struct of the package it holds
+	// by value or pointer (the buffer and its counter moved into a type of their own). The buffer is
+	// the field of type bytes.Buffer, the counter is the integer field Size() returns.
+	bufFieldOf := func(t *types.Named) string {
+		if st, ok := t.Underlying().(*types.Struct); ok {
+			for i := 0; i < st.NumFields(); i++ {
+				if strings.HasSuffix(strings.TrimPrefix(st.Field(i).Type().String(), "*"), "bytes.Buffer") {
+					return st.Field(i).Name()
+				}
+			}
+		}
+		return ""
+	}
+	owner := outT
+	bufField := bufFieldOf(outT)
+	if bufField == "" {
+		if st, ok := outT.Underlying().(*types.Struct); ok {
+			for i := 0; i < st.NumFields(); i++ {
+				if ft := namedOf(st.Field(i).Type()); ft != nil && ft.Obj().Pkg() == outT.Obj().Pkg() {
+					if bf := bufFieldOf(ft); bf != "" {
+						owner, bufField = ft, bf
+					}
+				}
 			}
 		}
 	}
-	if sz := p.Method("io", "DataOutputX", "Size"); sz != nil && sz.Decl.Body != nil {
-		ast.Inspect(sz.Decl.Body, func(n ast.Node) bool {
-			if rs, ok := n.(*ast.ReturnStmt); ok && len(rs.Results) == 1 {
-				if sel, ok := ast.Unparen(stripConvs(sz.Pkg.TypesInfo, rs.Results[0])).(*ast.SelectorExpr); ok {
-					if fv, ok := sz.Pkg.TypesInfo.ObjectOf(sel.Sel).(*types.Var); ok && fv.IsField() {
-						cntField = fv.Name()
+	if bufField == "" {
+		r.Undec("C01.counter", "io.DataOutputX", "-", "no bytes.Buffer behind DataOutputX")
+		return
+	}
+	isOwnerMethod := func(fi *core.FuncInfo) bool {
+		n := core.RecvNamed(fi.Obj)
+		return n != nil && n.Obj() == owner.Obj()
+	}
+	isOutMethod := func(fi *core.FuncInfo) bool {
+		n := core.RecvNamed(fi.Obj)
+		return n != nil && n.Obj() == outT.Obj()
+	}
+	// the counter: follow Size() to the field it returns (through one owner method)
+	cntField := ""
+	sizeOK := false
+	var retField func(fi *core.FuncInfo, depth int) string
+	retField = func(fi *core.FuncInfo, depth int) string {
+		if fi == nil || fi.Decl.Body == nil || depth > 2 {
+			return ""
+		}
+		out := ""
+		n := 0
+		ast.Inspect(fi.Decl.Body, func(m ast.Node) bool {
+			rs, ok := m.(*ast.ReturnStmt)
+			if !ok || len(rs.Results) != 1 {
+				return true
+			}
+			n++
+			e := ast.Unparen(stripConvs(fi.Pkg.TypesInfo, rs.Results[0]))
+			switch v := e.(type) {
+			case *ast.SelectorExpr:
+				if fv, ok := fi.Pkg.TypesInfo.ObjectOf(v.Sel).(*types.Var); ok && fv.IsField() {
+					if s, ok := fi.Pkg.TypesInfo.Selections[v]; ok {
+						if nt := namedOf(s.Recv()); nt != nil && nt.Obj() == owner.Obj() {
+							out = fv.Name()
+						}
+					}
+				}
+			case *ast.CallExpr:
+				if fn := calleeFunc(fi.Pkg.TypesInfo, v); fn != nil {
+					if cf := p.FuncOf(fn); cf != nil && isOwnerMethod(cf) {
+						out = retField(cf, depth+1)
 					}
 				}
 			}
 			return true
 		})
+		if n != 1 {
+			return ""
+		}
+		return out
 	}
-	touch := map[string]bool{}
+	sz := p.Method("io", "DataOutputX", "Size")
+	if sz != nil {
+		cntField = retField(sz, 0)
+		sizeOK = cntField != ""
+	}
+	if cntField == "" {
+		cntField = "written"
+	}
+	// events of a function: appends to the buffer and updates of the counter, in terms of the function's
+	// own parameters; calls to the owner's methods are expanded with the arguments substituted
+	type cev struct {
+		kind string // append, inc, set, reset, zero, other
+		e    ast.Expr
+		txt  string
+	}
+	var summarize func(fi *core.FuncInfo, depth int) []cev
+	summarize = func(fi *core.FuncInfo, depth int) []cev {
+		if fi == nil || fi.Decl.Body == nil || depth > 3 {
+			return nil
+		}
+		info := fi.Pkg.TypesInfo
+		ownerField := func(e ast.Expr, name string) bool {
+			sel, ok := ast.Unparen(e).(*ast.SelectorExpr)
+			if !ok || sel.Sel.Name != name {
+				return false
+			}
+			s, ok := info.Selections[sel]
+			if !ok || s.Kind() != types.FieldVal {
+				return false
+			}
+			nt := namedOf(s.Recv())
+			return nt != nil && nt.Obj() == owner.Obj()
+		}
+		var out []cev
+		ast.Inspect(fi.Decl.Body, func(n ast.Node) bool {
+			switch v := n.(type) {
+			case *ast.FuncLit:
+				return false
+			case *ast.CallExpr:
+				if sel, ok := v.Fun.(*ast.SelectorExpr); ok {
+					if ownerField(sel.X, bufField) {
+						switch sel.Sel.Name {
+						case "Write":
+							out = append(out, cev{kind: "append", e: v.Args[0]})
+						case "WriteByte":
+							out = append(out, cev{kind: "append", txt: "1"})
+						case "WriteString":
+							out = append(out, cev{kind: "append", txt: "len(" + types.ExprString(v.Args[0]) + ")", e: nil})
+						case "Reset":
+							out = append(out, cev{kind: "reset"})
+						case "Bytes", "Len":
+						default:
+							out = append(out, cev{kind: "append", txt: "?" + sel.Sel.Name})
+						}
+						return true
+					}
+				}
+				if fn := calleeFunc(info, v); fn != nil {
+					if cf := p.FuncOf(fn); cf != nil && cf != fi && isOwnerMethod(cf) && owner != outT {
+						repl := map[types.Object]ast.Expr{}
+						k := 0
+						for _, f := range cf.Decl.Type.Params.List {
+							for _, nm := range f.Names {
+								if k < len(v.Args) {
+									repl[cf.Pkg.TypesInfo.Defs[nm]] = v.Args[k]
+								}
+								k++
+							}
+						}
+						for _, ce := range summarize(cf, depth+1) {
+							if ce.e != nil {
+								if ne, ok := paths.Subst(cf.Pkg.TypesInfo, ce.e, repl).(ast.Expr); ok {
+									ce.e = ne
+								}
+							}
+							out = append(out, ce)
+						}
+					}
+				}
+			case *ast.AssignStmt:
+				if len(v.Lhs) == 1 && ownerField(v.Lhs[0], cntField) {
+					switch v.Tok {
+					case token.ADD_ASSIGN:
+						out = append(out, cev{kind: "inc", e: v.Rhs[0]})
+					case token.ASSIGN:
+						if types.ExprString(v.Rhs[0]) == "0" {
+							out = append(out, cev{kind: "zero"})
+						} else {
+							out = append(out, cev{kind: "inc", txt: "=" + types.ExprString(v.Rhs[0])})
+						}
+					default:
+						out = append(out, cev{kind: "inc", txt: v.Tok.String() + types.ExprString(v.Rhs[0])})
+					}
+				}
+			case *ast.IncDecStmt:
+				if ownerField(v.X, cntField) {
+					if v.Tok == token.INC {
+						out = append(out, cev{kind: "inc", txt: "1"})
+					} else {
+						out = append(out, cev{kind: "inc", txt: "-1"})
+					}
+				}
+			}
+			return true
+		})
+		return out
+	}
+	// who touches the two fields directly
 	for _, fi := range p.Funcs {
 		if fi.Decl.Body == nil {
 			continue
 		}
 		info := fi.Pkg.TypesInfo
-		var appends, incs []string
-		resets, zeroes := 0, 0
 		uses := false
 		ast.Inspect(fi.Decl.Body, func(n ast.Node) bool {
 			sel, ok := n.(*ast.SelectorExpr)
@@ -616,7 +785,7 @@ func c01Counter(p *core.Program, r *core.Report) {
 			if !ok || s.Kind() != types.FieldVal {
 				return true
 			}
-			if nt := namedOf(s.Recv()); nt == nil || nt.Obj() != outT.Obj() {
+			if nt := namedOf(s.Recv()); nt == nil || nt.Obj() != owner.Obj() {
 				return true
 			}
 			if sel.Sel.Name == bufField || sel.Sel.Name == cntField {
@@ -624,59 +793,56 @@ func c01Counter(p *core.Program, r *core.Report) {
 			}
 			return true
 		})
-		if !uses {
-			continue
+		if uses && !isOwnerMethod(fi) {
+			r.Viol("C01.counter", core.FuncName(fi.Obj)+" touches DataOutputX.buffer/written", p.Pos(fi.Decl.Pos()), "only the methods of the type that holds the buffer and its byte counter may touch them")
 		}
-		name := core.FuncName(fi.Obj)
-		touch[name] = true
-		if n := core.RecvNamed(fi.Obj); n == nil || n.Obj() != outT.Obj() {
-			r.Viol("C01.counter", name+" touches DataOutputX.buffer/written", p.Pos(fi.Decl.Pos()), "only DataOutputX's own methods may touch the buffer and its byte counter")
-			continue
-		}
-		ast.Inspect(fi.Decl.Body, func(n ast.Node) bool {
-			switch v := n.(type) {
-			case *ast.CallExpr:
-				if sel, ok := v.Fun.(*ast.SelectorExpr); ok {
-					if inner, ok := sel.X.(*ast.SelectorExpr); ok && inner.Sel.Name == bufField {
-						switch sel.Sel.Name {
-						case "Write":
-							appends = append(appends, amountOfSlice(v.Args[0]))
-						case "WriteByte":
-							appends = append(appends, "1")
-						case "WriteString":
-							appends = append(appends, "len("+types.ExprString(v.Args[0])+")")
-						case "Reset":
-							resets++
-						case "Bytes", "Len":
-						default:
-							appends = append(appends, "?"+sel.Sel.Name)
-						}
-					}
-				}
-			case *ast.AssignStmt:
-				if len(v.Lhs) == 1 {
-					if sel, ok := v.Lhs[0].(*ast.SelectorExpr); ok && sel.Sel.Name == cntField {
-						switch v.Tok {
-						case token.ADD_ASSIGN:
-							incs = append(incs, types.ExprString(v.Rhs[0]))
-						case token.ASSIGN:
-							if types.ExprString(v.Rhs[0]) == "0" {
-								zeroes++
-							} else {
-								incs = append(incs, "="+types.ExprString(v.Rhs[0]))
+		// an owner type of its own: its methods are called from DataOutputX only
+		if owner != outT && !isOwnerMethod(fi) && !isOutMethod(fi) {
+			ast.Inspect(fi.Decl.Body, func(n ast.Node) bool {
+				if call, ok := n.(*ast.CallExpr); ok {
+					if fn := calleeFunc(info, call); fn != nil {
+						if cf := p.FuncOf(fn); cf != nil && isOwnerMethod(cf) {
+							if _, isCtor := map[string]bool{"NewDataOutputX": true}[fi.Obj.Name()]; !isCtor {
+								r.Viol("C01.counter", core.FuncName(fi.Obj)+" touches DataOutputX.buffer/written", p.Pos(call.Pos()), "calls "+cf.Obj.Name()+" of the byte store directly: only DataOutputX's own methods may drive it")
 							}
 						}
 					}
 				}
-			case *ast.IncDecStmt:
-				if sel, ok := v.X.(*ast.SelectorExpr); ok && sel.Sel.Name == cntField && v.Tok == token.INC {
-					incs = append(incs, "1")
+				return true
+			})
+		}
+	}
+	// pairing, judged per method of DataOutputX with the byte store's methods expanded
+	for _, fi := range p.MethodsOf(outT) {
+		evs := summarize(fi, 0)
+		if len(evs) == 0 {
+			continue
+		}
+		var appends, incs []string
+		resets, zeroes := 0, 0
+		for _, e := range evs {
+			switch e.kind {
+			case "append":
+				if e.e != nil {
+					appends = append(appends, amountOfSlice(e.e))
+				} else {
+					appends = append(appends, e.txt)
 				}
+			case "inc":
+				if e.e != nil {
+					incs = append(incs, types.ExprString(e.e))
+				} else {
+					incs = append(incs, e.txt)
+				}
+			case "reset":
+				resets++
+			case "zero":
+				zeroes++
 			}
-			return true
-		})
+		}
 		sort.Strings(appends)
 		sort.Strings(incs)
+		name := core.FuncName(fi.Obj)
 		pos := p.Pos(fi.Decl.Pos())
 		if len(appends) > 0 || len(incs) > 0 {
 			r.Check(strings.Join(appends, ";") == strings.Join(incs, ";"), "C01.counter", name+" append/count pairing", pos,
@@ -690,12 +856,8 @@ func c01Counter(p *core.Program, r *core.Report) {
 			}
 		}
 	}
-	sz := p.Method("io", "DataOutputX", "Size")
-	if sz != nil && len(sz.Decl.Body.List) == 1 {
-		if rs, ok := sz.Decl.Body.List[0].(*ast.ReturnStmt); ok && len(rs.Results) == 1 {
-			sel, ok := rs.Results[0].(*ast.SelectorExpr)
-			r.Check(ok && sel.Sel.Name == cntField, "C01.counter", "io.(*DataOutputX).Size", p.Pos(sz.Decl.Pos()), "returns written", "Size() does not return the byte counter")
-		}
+	if sz != nil {
+		r.Check(sizeOK, "C01.counter", "io.(*DataOutputX).Size", p.Pos(sz.Decl.Pos()), "returns "+cntField, "Size() does not return the byte counter")
 	}
 }
 
